@@ -122,24 +122,33 @@ func (e *vcEnv) nativeMarkerMatches() bool {
 	return true
 }
 
-// nativeLeaderImageWAL: a WAL-mode database file holding pre, and next to it (as walPath) the WAL
-// file of a transaction that rewrites both pages to version ver; the database file itself does not
-// contain that transaction (no checkpoint on close).
-func (e *vcEnv) nativeLeaderImageWAL(dbPath, walPath string, pre vcState, ver int) {
+// nativeLeaderImageWAL: a WAL-mode database file holding pre, and next to it (as walPaths) the WAL
+// files of successive transactions, the k-th of which rewrites both pages to version ver+k (k from
+// 0); the database file itself contains none of them (they are made on a working copy, which is
+// checkpointed between two transactions, as a leader's database is between two snapshots).
+func (e *vcEnv) nativeLeaderImageWAL(dbPath string, walPaths []string, pre vcState, ver int) {
 	vcMakeDBFile(dbPath, pre)
 	vcMust(sql.EnsureWALMode(dbPath))
 	vcMust(sql.RemoveWALFiles(dbPath))
-	d, err := sql.Open(dbPath, false, true)
+	work := dbPath + ".work"
+	img, err := os.ReadFile(dbPath)
 	vcMust(err)
-	vcExec(d, "BEGIN", fmt.Sprintf("UPDATE t0 SET v=%d, c=c+1", ver), fmt.Sprintf("UPDATE t1 SET v=%d, c=c+1", ver), "COMMIT")
-	vcMust(d.Close())
-	b, err := os.ReadFile(dbPath + "-wal")
-	vcMust(err)
-	if len(b) == 0 {
-		panic("verif: world setup: the leader's WAL file is empty")
+	vcMust(os.WriteFile(work, img, 0o644))
+	for k, walPath := range walPaths {
+		d, err := sql.Open(work, false, true)
+		vcMust(err)
+		vcExec(d, "BEGIN", fmt.Sprintf("UPDATE t0 SET v=%d, c=c+1", ver+k), fmt.Sprintf("UPDATE t1 SET v=%d, c=c+1", ver+k), "COMMIT")
+		vcMust(d.Close())
+		b, err := os.ReadFile(work + "-wal")
+		vcMust(err)
+		if len(b) == 0 {
+			panic("verif: world setup: the leader's WAL file is empty")
+		}
+		vcMust(os.WriteFile(walPath, b, 0o644))
+		vcMust(sql.CheckpointRemove(work))
 	}
-	vcMust(os.WriteFile(walPath, b, 0o644))
-	vcMust(sql.RemoveWALFiles(dbPath))
+	vcMust(sql.RemoveWALFiles(work))
+	vcMust(os.Remove(work))
 }
 
 func (e *vcEnv) nativeCreateDB(st vcState) {
